@@ -189,7 +189,6 @@ Proof.
   destruct (normalize_fields dlm row) as [fs nn] eqn:N. cbn [snd fst] in *. subst nn.
   destruct pol; try (injection H as <-; cbn [w_none w_delim]; split; reflexivity).
   destruct fs as [|f [|g fs]]; try discriminate.
-  destruct (match fl with LJs => js_mono_raw_scalar row | LPy => false end); [discriminate|].
   injection H as <-. cbn [w_none w_delim]. split; [reflexivity|]. rewrite orb_false_r. reflexivity.
 Qed.
 
